@@ -119,7 +119,8 @@ func From(input any) (Any, error) {
 		}
 		return value, nil
 	case *dtpb.Quantity:
-		value, err := decimal.NewFromString(v.Value.Value)
+		// the value of a FHIR Quantity is optional: use the nil-safe getters
+		value, err := decimal.NewFromString(v.GetValue().GetValue())
 		if err != nil {
 			return nil, err
 		}
